@@ -9,6 +9,11 @@ Definition bind {A B} (r : res A) (k : A -> res B) : res B := match r with Ok a 
 (* tap result -> continuation; a NaN shift makes the whole row NaN *)
 Definition with_tap (r : res (Q * Q * option Q)) (k : Q -> Q -> Q -> res brow) : res brow :=
   bind r (fun v => let '(vnh, vnl, sh) := v in match sh with Some s => k vnh vnl s | None => Raise "NaN" end).
+(* loop pass t = "2" of _calc_tap_from_dataframe: the ordinary tap computation of the second tap changer (tap2_* columns)
+   on the vectors left by the first pass *)
+Definition tap_second (r : res (Q * Q * option Q)) (tc2 : tapc) (o2 : tap_orc) : res (Q * Q * option Q) :=
+  bind r (fun v => let '(vnh, vnl, sh) := v in
+                   match sh with Some s => tap_notable tc2 o2 vnh vnl s | None => Ok (vnh, vnl, None) end).
 Definition tab_tap (t : trow) : res (Q * Q * option Q) := Ok (t_vnh t, t_vnl t, Some (t_shift t)).
 
 (* residuals of the tap oracles: c^2+s^2-1,  vn^2 - ((u1+du c)^2 + (du s)^2)  (only meaningful for Ratio/Symmetrical) *)
@@ -28,8 +33,9 @@ Definition trafo_resid (sn : Q) (t : trafo) (o : trafo_orc) (vnl vnlbus : Q) : l
 Definition trafo_row (sn : Q) (tmodel_t : bool) (t : trafo) (o : trafo_orc) (tp : res (Q * Q * option Q))
                      (basehv baselv : Q) : res brow :=
   with_tap tp (fun vnh vnl sh => trafo_branch sn tmodel_t t o vnh vnl sh basehv baselv).
-Definition trafo_resids (sn : Q) (t : trafo) (o : trafo_orc) (tc : tapc) (tpo : tap_orc) (shift0 baselv : Q) : list Q :=
-  match tap_notable tc tpo (t_vnh0 t) (t_vnl0 t) shift0 with
+Definition trafo_resids (sn : Q) (t : trafo) (o : trafo_orc) (tc : tapc) (tpo : tap_orc) (tp : res (Q * Q * option Q))
+                        (baselv : Q) : list Q :=
+  match tp with                       (* tp = the complete tap computation (first and, if present, second tap changer) *)
   | Ok (vnh, vnl, _) => tap_resid tc tpo (t_vnh0 t) (t_vnl0 t) ++ trafo_resid sn t o vnl baselv
   | Raise _ => []
   end.
